@@ -3,6 +3,8 @@ from __future__ import annotations
 
 import math
 
+import numpy as np
+
 from detectors import BY_NAME, corr_compare, run_impl, run_models
 from lib import Check, check_props, gen_stream_real
 
@@ -97,7 +99,7 @@ def run(ck: Check):
     rng = ck.rng
     thorough = ck.tier == "thorough"
     ck.rule(
-        "data_var assigned through its setter before use; level shifts of 40-100 sigma (50-digit reference); last values bisected to a 1e-7 log-probability margin between the two most probable run lengths; Gaussian streams with 0-2 mean shifts, constants, ramps (t <= 60 quick / 150 thorough), priors / variances / hazards on a grid incl. extreme hazards (1e-6, .999); at every step the "
+        "integer-typed model parameters; config.min_num_instances re-assigned in mid-stream; data_var assigned through its setter before use; level shifts of 40-100 sigma (50-digit reference); last values bisected to a 1e-7 log-probability margin between the two most probable run lengths; Gaussian streams with 0-2 mean shifts, constants, ramps (t <= 60 quick / 150 thorough), priors / variances / hazards on a grid incl. extreme hazards (1e-6, .999); at every step the "
         "run-length row is compared with the linear-space Adams-MacKay posterior recomputed non-incrementally (tolerance 1e-8 abs on probabilities), normalisation, the posterior-weighted "
         "prediction, and drift vs (arg max != t) unless the two largest probabilities are within 1e-9; one run of 1300 steps (2500 thorough) without reset checked at every step for row normalisation and the exact identity P(r_t=0)=hazard; also pairs of detectors built from ONE configuration object and updated alternately (one reset in mid-stream), each checked against the posterior of its own stream; non-trivial = the most probable run length is shorter than t at some step"
     )
@@ -197,6 +199,46 @@ def run(ck: Check):
         ok, short = check_trace(ck, cfg, xs, out, extra=dict(scenario="last value bisected so that the best shorter run length and the full run length differ by about 1e-7 in log-probability", log_margin=margin(xs[-1])))
         ck.case(dict(config=cfg, n=n + 1, kind="near-margin", target=target), nontrivial=short, key=repr(("margin", cfg, xs)))
         ck.count("near_margin_cases")
+    # (d) integer-typed parameters (Python ints and NumPy integers where floats are usual), and
+    # (e) config.min_num_instances assigned through its setter in mid-stream: the verdict rule follows the new value
+    for _ in range(6 if not thorough else 30):
+        ity = rng.choice([int, np.int64, np.int32])
+        cfg = dict(prior_mean=ity(rng.choice([0, 1, -3])), prior_var=ity(rng.choice([1, 2, 9])), data_var=ity(rng.choice([1, 4, 2])), hazard=rng.choice([0.01, 0.1]), min_num_instances=rng.choice([1, 4]))
+        n = rng.choice([8, 16])
+        sd = math.sqrt(float(cfg["data_var"]))
+        xs = [rng.gauss(float(cfg["prior_mean"]) + (0 if i < n // 2 else 3 * sd), sd) for i in range(n)]
+        try:
+            m = _GUM(prior_mean=cfg["prior_mean"], prior_var=cfg["prior_var"], data_var=cfg["data_var"])
+            out = run_obj(_BOCD(config=_BOCDConfig(model=m, hazard=cfg["hazard"], min_num_instances=cfg["min_num_instances"])), xs)
+        except Exception as e:  # noqa: BLE001
+            ck.violation(dict(clause="raises", scenario="integer-parameters"), dict(config={k: repr(v) for k, v in cfg.items()}, stream=xs, error=repr(e)))
+            continue
+        fcfg = {k: (float(v) if k != "min_num_instances" else int(v)) for k, v in cfg.items()}
+        ok, short = check_trace(ck, fcfg, xs, out, extra=dict(scenario=f"prior_mean / prior_var / data_var given as {ity.__name__}"))
+        ck.case(dict(config=fcfg, n=n, kind="integer-parameters", type=ity.__name__), nontrivial=short, key=repr(("intpar", fcfg, xs, ity.__name__)))
+        ck.count("integer_parameter_cases")
+    for _ in range(5 if not thorough else 25):
+        cfg = gen_cfg(rng)
+        cfg["hazard"] = rng.choice([0.05, 0.1, 0.3])
+        old_min, new_min = rng.choice([(20, 3), (12, 4), (30, 1)])  # lowered: the rule is unambiguous from the assignment on
+        cfg["min_num_instances"] = old_min
+        sd = math.sqrt(cfg["data_var"])
+        n = 24
+        k = rng.randrange(3, 8)
+        xs = [rng.gauss(cfg["prior_mean"], sd) for _ in range(6)] + [rng.gauss(cfg["prior_mean"] + 5 * sd, sd) for _ in range(n - 6)]
+        d = DET.make(cfg)
+        out = []
+        for i, v in enumerate(xs):
+            if i == k:
+                d.config.min_num_instances = new_min
+            d.update(value=v)
+            out.append(DET.observe(d))
+        ok1, s1 = check_trace(ck, dict(cfg, min_num_instances=old_min), xs[:k], out[:k], extra=dict(scenario="before config.min_num_instances is re-assigned"))
+        # after the assignment the rule uses the new value; rows / predictions are unaffected by it
+        ref_cfg = dict(cfg, min_num_instances=new_min)
+        ok2, s2 = check_trace(ck, ref_cfg, xs, [o if i >= k else (False,) + tuple(o[1:]) for i, o in enumerate(out)], extra=dict(scenario=f"config.min_num_instances assigned {old_min} -> {new_min} before update {k + 1}: steps from there on follow the new value", setter_at=k), verdict_from=k)
+        ck.case(dict(config=cfg, kind="min-setter", old=old_min, new=new_min, at=k), nontrivial=s1 or s2, key=repr(("minset", cfg, xs, k, new_min)))
+        ck.count("min_setter_cases")
     # two detectors built from ONE configuration object, updated alternately (one of them reset in mid-stream):
     # each must keep the exact posterior of ITS OWN stream
     for _ in range(8 if not thorough else 60):
@@ -230,7 +272,6 @@ def run(ck: Check):
     # long runs without reset: two exact invariants of the posterior that need no O(t^2) reference -
     # every row sums to one and, for a constant hazard H, P(r_t = 0 | x_1..t) = H exactly
     # (J_t(0) = H * evidence_t); the un-normalised message underflows naive linear-domain arithmetic after ~700 steps
-    import numpy as np
     from scipy.special import logsumexp as _lse
 
     for n in ([1300] if not thorough else [1300, 2500]):
@@ -256,7 +297,7 @@ def run(ck: Check):
     corr_compare(ck, "C08", cases, impl, models, rtol=1e-7, atol=1e-9)
 
 
-def check_trace(ck, cfg, xs, out, extra=None):
+def check_trace(ck, cfg, xs, out, extra=None, verdict_from=0):
     """One implementation trace against the non-incremental reference. Returns (ok, some step had argmax != t)."""
     extra = extra or {}
     if True:
@@ -300,6 +341,8 @@ def check_trace(ck, cfg, xs, out, extra=None):
             top = sorted(P, reverse=True)
             am = max(range(len(P)), key=lambda k: (P[k], -k))
             short |= am != t + 1
+            if t < verdict_from:
+                continue
             if t + 1 >= cfg["min_num_instances"]:
                 if len(top) > 1 and top[0] - top[1] <= 1e-9:
                     ck.near_ties += 1
